@@ -67,6 +67,20 @@ Example stack_example :
   stack (fun rows => rows) [10; 20; 30; 40] [5; 3; 5; 3] = ([[20; 40]; [10; 30]], [2; 2]).
 Proof. vm_compute. reflexivity. Qed.
 
+(* F-C20-b: the stacked array takes the dtype of the data, so for INTEGER traces and the default
+   aggregate (nanmean) the rows are the means truncated towards zero, not the per-label means:
+   traces [1] and [2] with one label stack to [1] (and [-3],[-4] to [-3]). *)
+Theorem C20_stack_int_dtype_refuted :
+  exists (data : list (list Z)) (word : list Z) (st : list (list Z)) (fold : list Z),
+    stack_int_mean 1 data word = (st, fold) /\
+    exists g row, In g (uniq_sorted word) /\ nth_error st 0 = Some row /\
+      hd 0 row * count_eq g word <> hd 0 (col_sums 1 (select word data g)).
+Proof.
+  exists [[1]; [2]], [0; 0], [[1]], [2]. split; [vm_compute; reflexivity|].
+  exists 0, [1]. split; [vm_compute; auto|]. split; [reflexivity|]. vm_compute. discriminate.
+Qed.
+Print Assumptions C20_stack_int_dtype_refuted.
+
 (* ---------------------------------------------------------------------------
    3. smooth.rolling_window keeps the length for EVERY window_len >= 3 (both
    parities; Python's round is half-to-even) and every input at least that long;
@@ -90,6 +104,15 @@ Theorem C20_rolling_constant :
   rolling R rO radd rmul rdiv w (repeat c n) = repeat c n.
 Proof. exact rolling_constant. Qed.
 Print Assumptions C20_rolling_constant.
+
+(* OBSERVATION (not a clause of the property): the slice y[round(w/2 - 1) : ...] starts at h - (h mod 2)
+   for window_len = 2h+1, while the centred start is h: for odd h (window_len = 3 mod 4: 3, 7, 11 = default,
+   15, ...) every output is the window centred one sample EARLIER, i.e. the output is delayed by one sample.
+   Even window_len = 2h starts at h - 1 (half-sample alignment is unavoidable there). *)
+Theorem C20_rolling_slice_start : forall h, 0 <= h ->
+  py_round_half (2 * h + 1 - 2) = h - h mod 2 /\ py_round_half (2 * h - 2) = h - 1.
+Proof. exact round_half_start. Qed.
+Print Assumptions C20_rolling_slice_start.
 
 (* the output is NOT centred for window_len = 3 mod 4 (default 11): output k is the window
    centred on sample k-1 (round(4.5) = 4): output 10 of a length-30 input reads samples 4..14 *)
@@ -173,18 +196,19 @@ Example traj_example :   (* 2 columns x 4 rows *)
   = (6, 2, [2; 0; 4; 2; 6; 4; 3; 1; 5; 3; 7; 5]).
 Proof. vm_compute. reflexivity. Qed.
 
-(* cadzow.denoise on one frequency returns its input when the rank is not reduced
+(* cadzow.denoise on one frequency, ANY number of iterations niter >= 1 (each iteration re-fills the
+   trajectory matrix from the previous output), returns its input when the rank is not reduced
    (derank returns the trajectory matrix), in any field of characteristic 0. *)
 Theorem C20_denoise_identity :
   forall (R : Type) (rO rI : R) (radd rmul rsub : R -> R -> R) (ropp : R -> R)
          (rdiv : R -> R -> R) (rinv : R -> R),
   field_theory rO rI radd rmul rsub ropp rdiv rinv (@eq R) ->
-  forall (derank : list R -> list R) (entries : list Z) (w : list R),
+  forall (derank : list R -> list R) (entries : list Z) (w : list R) (niter : nat),
   (forall n, (0 < n)%nat -> rofnat R rO rI radd n <> rO) ->
   (forall k, 0 <= k < Z.of_nat (length w) -> 0 < count_eq k entries) ->
-  derank (fill R rO entries w) = fill R rO entries w ->
-  denoise1 R rO rI radd rdiv derank entries w = w.
-Proof. exact denoise_identity. Qed.
+  derank (fill R rO entries w) = fill R rO entries w -> (1 <= niter)%nat ->
+  denoise_n R rO rI radd rdiv derank entries niter w = w.
+Proof. exact denoise_n_identity. Qed.
 Print Assumptions C20_denoise_identity.
 
 (* a single plane wave A u^i v^j on a complete regular grid fills the block trajectory
